@@ -538,6 +538,7 @@ pub fn run_check(check: &Check, tier: Tier, seed: u64, threads: usize) -> Outcom
             }
         }
         let tf = Instant::now();
+        let mut known_counts = 0u64;
         let mut rec = Rec::default();
         let mut nplans = 0usize;
         let mut round = 0u64;
@@ -545,13 +546,22 @@ pub fn run_check(check: &Check, tier: Tier, seed: u64, threads: usize) -> Outcom
             let ctx = GenCtx::new(seed, tier, round);
             let plans = (fam.gen)(&ctx);
             nplans += plans.len();
-            let r = run_family(fam, &plans, threads);
-            rec.merge(r);
-            // keep memory bounded: beyond 20 000 stored violations (in plan order) only the count matters
-            if rec.violations.len() > 20_000 {
-                rec.count_n("violations-not-stored", (rec.violations.len() - 20_000) as u64);
-                rec.violations.truncate(20_000);
+            let mut r = run_family(fam, &plans, threads);
+            // known findings are triaged away round by round (they can be numerous); everything else is
+            // kept, in plan order, for reporting below (bounded: the first 5 000 unknown ones)
+            let vs = std::mem::take(&mut r.violations);
+            for v in vs {
+                if let Some(k) = matches_known(&known, check.property, &v) {
+                    known_counts += 1;
+                    if !known_hit.contains(&k.id) {
+                        known_hit.push(k.id.clone());
+                        println!("KNOWN-FINDING: property={} {} [{}]", check.property, k.what, k.id);
+                    }
+                } else if rec.violations.len() < 5_000 {
+                    rec.violations.push(v);
+                }
             }
+            rec.merge(r);
             if !ctx.wants_another_round() {
                 break;
             }
@@ -560,12 +570,13 @@ pub fn run_check(check: &Check, tier: Tier, seed: u64, threads: usize) -> Outcom
         let plans_len = nplans;
         let secs = tf.elapsed().as_secs_f64();
         println!(
-            "  family {:<28} plans={:<7} evals={:<9} distinct={:<8} violations={} ({:.1}s)",
+            "  family {:<28} plans={:<7} evals={:<9} distinct={:<8} violations={} known-finding-hits={} ({:.1}s)",
             fam.name,
             plans_len,
             rec.evals,
             rec.hashes.len(),
             rec.violations.len(),
+            known_counts,
             secs
         );
         per_family.insert(
